@@ -27,8 +27,23 @@ import gen as sgen
 ORIGIN = datetime(2000, 1, 1, tzinfo=timezone.utc)
 UNIT = 3600
 REC = {'P1': 'PT1H', 'P2': 'PT2H', '+P1/P2': '+PT1H/PT2H', 'R1': 'R1', 'R1/$': 'R1/$', 'R1/+P1': 'R1/+PT1H'}
-OFFSETS = [('', 0), ('PT30M', 1800), ('PT1H', 3600), ('PT1H', 3600), ('PT2H', 7200), ('-PT1H', -3600),
-           ('PT90M', 5400), ('PT3H', 10800), ('PT0M', 0)]
+def iso_seconds(text: str) -> int:
+    """Seconds of an ISO8601 duration [-]PnWnDTnHnMnS - the generator's own arithmetic (week = 7 days, day = 86400 s,
+    hour = 3600 s, minute = 60 s), exact for the units used here; '' = no offset.  The judge gets these numbers: the
+    expiry time it demands is cycle point + this, independent of TaskProxy.get_offset_as_seconds / expire_time."""
+    if not text:
+        return 0
+    m = re.fullmatch(r'(-)?P(?:(\d+)W)?(?:(\d+)D)?(?:T(?:(\d+)H)?(?:(\d+)M)?(?:(\d+)S)?)?', text)
+    assert m and text not in ('P', '-P'), text
+    w, d, h, mi, sec = (int(x or 0) for x in m.groups()[1:])
+    total = ((w * 7 + d) * 24 + h) * 3600 + mi * 60 + sec
+    return -total if m.group(1) else total
+
+
+# clock-expire offsets as written in flow.cylc: sub-day ones, and a day or more (days, weeks, mixed, hours > 24)
+_OFFSET_TEXTS = ['', 'PT30M', 'PT1H', 'PT1H', 'PT2H', '-PT1H', 'PT90M', 'PT3H', 'PT0M',
+                 'P1D', 'P2D', 'P1DT6H', 'PT36H', 'P1W']
+OFFSETS = [(t, iso_seconds(t)) for t in _OFFSET_TEXTS]
 BASE_KIND = {'exp': 'complete', 'expany': 'any', 'expcmd': 'cmd', 'exptrig': 'cmd', 'expq': 'cmd', 'exprl': 'cmd'}
 JUDGE_ONLY = ('expq', 'exprl')
 
